@@ -248,7 +248,8 @@ MANIFEST = {
             "returned only when the code's own end-point tests say so (no front in [cs+(Tn),vJ], "
             "positive mismatch at the top, or an unconverged matching of this call), the static "
             "sentinel only with negative mismatch at vMin, otherwise a bracketed zero in (vMin,vJ)."
-            " WallGoManager.wallSpeedLTE is the LTE velocity of the hydrodynamics of the current set-up across three set-ups of one manager.",
+            " WallGoManager.wallSpeedLTE is the LTE velocity of the hydrodynamics of the current set-up across three set-ups of one manager."
+            " Concrete twin: on a two-step equation of state (temperature-dependent sound speeds) the real matchDeflagOrHyb(vw) with the real scipy returns T+ gamma+ = T- gamma-, equal fluxes and v-^2 = min(vw^2, cs-^2(T-)) for deflagrations and hybrids.",
     "note": "The 'one sign over the whole window' part of the sentinel statement needs "
             "monotonicity and is not decided; iterations are contract stubs.",
 }
